@@ -165,6 +165,15 @@ type fontCase struct {
 	desc      string
 }
 
+func (fc *fontCase) anyOutline() bool {
+	for _, g := range fc.glyphs {
+		if g.hasOutline() {
+			return true
+		}
+	}
+	return false
+}
+
 func (fc *fontCase) fullMatrix(gid int) matrix.Matrix {
 	if fc.kind == "cid" {
 		return fc.fdm[fc.glyphs[gid].fd].Mul(fc.fm)
@@ -218,11 +227,16 @@ type coordClass struct {
 	lo, hi int
 }
 
-func genCoordClass(t *rapid.T, label string) coordClass {
+// genCoordClass draws the coordinate range of a font.  lim is the largest
+// magnitude: 32767 for TrueType, 32000 for Type 2 charstrings ("numbers are
+// limited to -32000..32000", which the library's charstring decoder enforces
+// by clamping).  The extreme classes are one-sided so that every delta
+// between consecutive points still fits the 16-bit delta encodings.
+func genCoordClass(t *rapid.T, label string, lim int) coordClass {
 	return rapid.SampledFrom([]coordClass{
 		{"normal", -500, 1500}, {"normal", -500, 1500}, {"normal", -500, 1500},
 		{"positive", 10, 900}, {"negative", -900, -10},
-		{"pos-extreme", 0, 32767}, {"neg-extreme", -32767, 0},
+		{"pos-extreme", 0, lim}, {"neg-extreme", -lim, 0},
 		{"tiny", -2, 2},
 	}).Draw(t, label)
 }
@@ -281,8 +295,8 @@ func genOutline(t *rapid.T, kind string, xc, yc coordClass, curves string, frac 
 	return cmds, on
 }
 
-func genWidthsInt(t *rapid.T, n int) ([]int, string) {
-	w0 := rapid.OneOf(rapid.IntRange(1, 2000), rapid.SampledFrom([]int{1, 500, 1000, 32766, 32767})).Draw(t, "w0")
+func genWidthsInt(t *rapid.T, n, lim int) ([]int, string) {
+	w0 := rapid.OneOf(rapid.IntRange(1, 2000), rapid.SampledFrom([]int{1, 500, 1000, lim - 1, lim})).Draw(t, "w0")
 	class := rapid.SampledFrom([]string{"fixed", "fixed+zeros", "almost-fixed", "random", "random", "pool", "tail", "with-extreme", "all-zero"}).Draw(t, "widthClass")
 	if class == "all-zero" && rapid.IntRange(0, 2).Draw(t, "keepAllZero") != 0 {
 		class = "random"
@@ -304,7 +318,7 @@ func genWidthsInt(t *rapid.T, n int) ([]int, string) {
 			w[i] = w0
 		}
 		d := rapid.SampledFrom([]int{-1, 1}).Draw(t, "d")
-		if w0+d >= 0 && w0+d <= 32767 {
+		if w0+d >= 0 && w0+d <= lim {
 			w[rapid.IntRange(0, n-1).Draw(t, "odd")] = w0 + d
 		}
 	case "pool":
@@ -322,7 +336,7 @@ func genWidthsInt(t *rapid.T, n int) ([]int, string) {
 		}
 	case "with-extreme":
 		for i := range w {
-			w[i] = rapid.SampledFrom([]int{0, 1, w0, 32767, 32766}).Draw(t, "w")
+			w[i] = rapid.SampledFrom([]int{0, 1, w0, lim, lim - 1}).Draw(t, "w")
 		}
 	case "all-zero":
 	default:
@@ -392,17 +406,29 @@ func genFont(t *rapid.T) *fontCase {
 	fc.curves = "none"
 	if fc.kind != "glyf" {
 		fc.curves = rapid.SampledFrom([]string{"none", "inside", "inside", "bulging"}).Draw(t, "curves")
-		if fc.curves == "bulging" && stats.IsListed(prop, keyCurveBox) {
-			stats.Excluded(keyCurveBox)
-			fc.curves = "inside"
+		if fc.curves != "none" && stats.IsListed(prop, keyCurveBox) {
+			// known finding: keep every curve extremum at a node, in design
+			// space and under the font matrix (a shear moves extrema)
+			if fc.curves == "bulging" {
+				stats.Excluded(keyCurveBox)
+				fc.curves = "inside"
+			}
+			if fc.fm[1] != 0 || fc.fm[2] != 0 {
+				stats.Excluded(keyCurveBox)
+				fc.curves = "none"
+			}
 		}
 	}
-	xc, yc := genCoordClass(t, "xClass"), genCoordClass(t, "yClass")
+	lim := 32767
+	if fc.kind != "glyf" {
+		lim = 32000
+	}
+	xc, yc := genCoordClass(t, "xClass", lim), genCoordClass(t, "yClass", lim)
 	emptyPct := rapid.SampledFrom([]int{0, 25, 25, 60, 100}).Draw(t, "emptyPct")
-	widths, _ := genWidthsInt(t, n)
+	widths, _ := genWidthsInt(t, n, lim)
 	for i := 0; i < n; i++ {
 		g := &mglyph{width: float64(widths[i])}
-		if fc.fracWidth && widths[i] < 32000 {
+		if fc.fracWidth && widths[i] < 31000 {
 			g.width += rapid.SampledFrom([]float64{0, 0, 0.25, 0.4, 0.5, 0.75}).Draw(t, "wFrac")
 		}
 		if rapid.IntRange(0, 99).Draw(t, "isEmpty") >= emptyPct {
@@ -701,19 +727,39 @@ func checkFont(t fataler, fc *fontCase) {
 		if pn := guard.Try(func() { back, rerr = sfnt.Read(bytes.NewReader(data)) }); pn != nil {
 			fail("Read of the written font: %s", pn)
 		}
+		emptyGlyf := fc.kind == "glyf" && !fc.anyOutline()
+		if rerr != nil && emptyGlyf {
+			// a zero-length glyf table: whether such a file is readable is
+			// the business of C01/C03, not of the metrics property
+			add("empty-glyf-table:reread-skipped")
+			rerr, back = nil, nil
+		}
 		if rerr != nil {
 			fail("Read of the written font: %v", rerr)
 		}
-		if back.NumGlyphs() != n {
-			fail("re-read font has %d glyphs, want %d", back.NumGlyphs(), n)
+		if back != nil {
+			if back.NumGlyphs() != n {
+				fail("re-read font has %d glyphs, want %d", back.NumGlyphs(), n)
+			}
+			// the queries of the re-read font are judged against its own
+			// matrices (CFF stores them as decimal reals; their precision is
+			// the subject of C13, glyf fonts get 1/unitsPerEm)
+			fcBack := *fc
+			fcBack.font = back
+			fcBack.fm = back.FontMatrix
+			if o, ok := back.Outlines.(*cff.Outlines); ok && fc.kind == "cid" {
+				if len(o.FontMatrices) != len(fc.fdm) {
+					fail("re-read font has %d font dict matrices, want %d", len(o.FontMatrices), len(fc.fdm))
+				}
+				fcBack.fdm = o.FontMatrices
+				for i, g := range fc.glyphs {
+					if got := o.FDSelect(glyph.ID(i)); got != g.fd {
+						fail("re-read font: FDSelect(%d) = %d, want %d", i, got, g.fd)
+					}
+				}
+			}
+			checkQueries(t, &fcBack, back, "re-read", boxes, fontBox, &labels)
 		}
-		fcBack := *fc
-		fcBack.font = back
-		if fc.kind == "glyf" { // FontMatrix is not stored: Read derives it from unitsPerEm
-			q := 1 / float64(fc.upem)
-			fcBack.fm = matrix.Matrix{q, 0, 0, q, 0, 0}
-		}
-		checkQueries(t, &fcBack, back, "re-read", boxes, fontBox, &labels)
 	} else {
 		add("fractional-widths:queries-only")
 	}
@@ -723,9 +769,13 @@ func checkFont(t fataler, fc *fontCase) {
 	for wTail < n && fc.glyphs[n-1-wTail].width == fc.glyphs[n-1].width {
 		wTail++
 	}
-	extreme := fontBox.urx == 32767 || fontBox.ury == 32767 || fontBox.llx == -32767 || fontBox.lly == -32767
+	lim := 32767
+	if fc.kind != "glyf" {
+		lim = 32000
+	}
+	extreme := fontBox.urx == lim || fontBox.ury == lim || fontBox.llx == -lim || fontBox.lly == -lim
 	for _, g := range fc.glyphs {
-		if g.width == 32767 {
+		if g.width == float64(lim) {
 			extreme = true
 		}
 	}
@@ -824,11 +874,7 @@ func checkQueries(t fataler, fc *fontCase, f *sfnt.Font, which string, boxes []b
 		// boxes in design units
 		want := boxes[i]
 		if got := (box4{int(gb.LLx), int(gb.LLy), int(gb.URx), int(gb.URy)}); got != want {
-			if fc.kind != "glyf" && got == fc.glyphs[i].designBox(false) && stats.Known(prop, keyCurveBox) {
-				stats.Excluded(keyCurveBox)
-			} else {
-				fail("GlyphBBox(%d) = %v, the outline's box is %v", i, got, want)
-			}
+			fail("GlyphBBox(%d) = %v, the outline's box is %v", i, got, want)
 		}
 		if gboxes[i] != gb {
 			fail("GlyphBBoxes()[%d] = %v but GlyphBBox(%d) = %v", i, gboxes[i], i, gb)
@@ -851,13 +897,7 @@ func checkQueries(t fataler, fc *fontCase, f *sfnt.Font, which string, boxes []b
 			wantPDF, _ = g.bounds(M1000, true)
 		}
 		if !nearRect(gbPDF, wantPDF) {
-			loose, _ := g.bounds(M1000, false)
-			if fc.kind != "glyf" && nearRect(gbPDF, loose) && stats.Known(prop, keyCurveBox) {
-				stats.Excluded(keyCurveBox)
-				wantPDF = loose
-			} else {
-				fail("GlyphBBoxPDF(%d) = %v, the outline under the font matrix x 1000 has the box %v", i, gbPDF, wantPDF)
-			}
+			fail("GlyphBBoxPDF(%d) = %v, the outline under the font matrix x 1000 has the box %v", i, gbPDF, wantPDF)
 		}
 		if !wantPDF.IsZero() {
 			if firstPDF {
@@ -1114,7 +1154,9 @@ func checkWritten(t fataler, fc *fontCase, data []byte, boxes []box4, fontBox bo
 	// ---- second judge: golang.org/x/image/font/sfnt ------------------------
 	xf, err := xsfnt.Parse(data)
 	if err != nil {
-		if strings.Contains(err.Error(), "unsupported") {
+		if strings.Contains(err.Error(), "unsupported") || (strings.Contains(err.Error(), "cmap") && len(fc.codes) == 0) ||
+			(fc.kind == "glyf" && !fc.anyOutline()) {
+			// x/image insists on a cmap table with a Unicode subtable it can use
 			add("ximage-abstains")
 			return
 		}
